@@ -1194,6 +1194,58 @@ async fn many_sources_family(cli: &Cli, report: &mut Report) {
     }
 }
 
+/// A well-behaved exchange that takes a while for reasons of its own (a session service that needs
+/// 1.5 s) beside a crowd of idle connections: how much time the client is given does not depend on
+/// how many others are connected.
+async fn slow_backend_in_a_crowd_family(cli: &Cli, report: &mut Report, late: &LateLog) {
+    for (round, crowd) in if cli.tier == Tier::Thorough { vec![40usize, 200, 500] } else { vec![200usize] }.into_iter().enumerate() {
+        let mut adapters = default_adapters(&DirectSpec::default());
+        adapters.auth_latency = Duration::from_millis(1500);
+        let direct = {
+            let _g = START.lock().await;
+            start_direct(DirectSpec { timeout: Duration::from_secs(8), adapters: Some(adapters), ..Default::default() }).await
+        };
+        let addr = direct.addr;
+        let control = probe_login("control-login", addr, false, 31 + round as u64, BOUND).await;
+        if !control.served_within_bound() {
+            report.inconclusive(&format!("slow backend in a crowd/{crowd}: the control login (1.5 s session service, nobody else connected) was not served within {BOUND:?}"));
+            direct.stop.cancel();
+            continue;
+        }
+        let placed: Vec<Result<Staller, String>> = futures_util::future::join_all((0..crowd).map(|i| place(&Point::NothingSent, false, addr, i, Duration::from_secs(20)))).await;
+        let stallers: Vec<Staller> = placed.into_iter().flatten().collect();
+        tokio::time::sleep(Duration::from_millis(300)).await;
+        let started = Instant::now();
+        let p = probe_login("login-in-a-crowd", addr, false, 77 + round as u64, BOUND + Duration::from_secs(2)).await;
+        let held = stallers.len();
+        for s in stallers {
+            release(s).await;
+        }
+        direct.stop.cancel();
+        report.eval(Some(&format!("slow-backend-in-a-crowd/{crowd}")));
+        report.count("probes measured", 1);
+        report.count("stallers placed and held", held as u64);
+        let detail = json!({"idle_connections": held, "session_service_latency_ms": 1500, "connection_timeout_s": 8, "control_login_ms": control.latency().map(|d| d.as_secs_f64() * 1000.0), "login_ms": p.latency().map(|d| d.as_secs_f64() * 1000.0), "clientbound": p.clientbound});
+        report.sample(json!({"case": format!("login with a 1.5 s session service beside {held} idle connections"), "observed": detail}));
+        if held < crowd {
+            report.inconclusive(&format!("slow backend in a crowd/{crowd}: only {held} idle connections could be opened"));
+            continue;
+        }
+        if !p.served_within_bound() {
+            let worst = late.worst_between(started, started + BOUND + Duration::from_millis(100));
+            if worst > BOUND / 2 {
+                report.inconclusive(&format!("slow backend in a crowd/{crowd}: harness was starved ({worst:?} late), timing verdict void"));
+                continue;
+            }
+            report.violation(
+                "probe-delayed/proxy-off/slow-session-service-beside-idle-connections",
+                &format!("a well-behaved login whose session service takes 1.5 s completed alone but not beside {held} idle connections (connection timeout 8 s)"),
+                detail,
+            );
+        }
+    }
+}
+
 pub async fn run_prop(cli: &Cli) -> i32 {
     let mut report = Report::new(
         cli,
@@ -1211,6 +1263,7 @@ pub async fn run_prop(cli: &Cli) -> i32 {
         non_reading_family(cli, &mut report, &late).await;
         fd_exhaustion_family(cli, &mut report, &late).await;
         many_sources_family(cli, &mut report).await;
+        slow_backend_in_a_crowd_family(cli, &mut report, &late).await;
     }
     report.finish()
 }
